@@ -225,6 +225,12 @@ def write_evidence(prop, tier, lean, cov, assumptions, wall, violations):
         theorems=[dict(name=t["theorem"], axioms=t["axioms"], statement_sha1=hashlib.sha1(t["statement"].encode()).hexdigest()[:12]) for t in thms],
     )
     coverage.update(cov)
+    try:
+        import proj
+        if proj.STRAY_REMOVED:
+            coverage["stray_project_databases_removed"] = list(proj.STRAY_REMOVED)
+    except Exception:
+        pass
     if lean.get("extraction_fallbacks"):
         coverage["generated_constants_kept_from_last_run"] = lean["extraction_fallbacks"]
     ev = dict(property_id=prop, tier=tier, seed=seed(), level="proof", coverage=coverage,
